@@ -81,6 +81,7 @@ TRANSLATORS = {
     "GenPiEval": "gen_pieval",
     "GenDeMoor": "gen_demoor",
     "GenMirjalili": "gen_mirjalili",
+    "GenHendrix": "gen_hendrix",
 }
 
 
